@@ -70,6 +70,15 @@ class Boom(Exception):
     pass
 
 
+class BoomBase(BaseException):
+    """Leaves a block the way KeyboardInterrupt / GeneratorExit would."""
+
+
+import asyncio as _asyncio
+
+EXITS = (Boom, BoomBase, _asyncio.CancelledError)
+
+
 def gen_kwargs(rng):
     kw = {}
     names = rng.sample(("timeout", "retries", "credentials", "context"), rng.randint(1, 3))
@@ -93,8 +102,12 @@ def gen_block(rng, depth, budget):
             break
         budget[0] -= 1
         r = rng.random()
-        if r < 0.4:
+        if r < 0.36:
             steps.append(("request",))
+        elif r < 0.4:
+            # the device reboots: the next authenticated request is answered by a
+            # notInTimeWindow report first and sent again
+            steps.append(("reboot",))
         elif r < 0.55:
             steps.append(("configure", gen_kwargs(rng)))
         elif r < 0.65:
@@ -212,6 +225,11 @@ class Harness:
             else:
                 rec = next((r for r in reversed(self.agent.requests) if r["raw"] == e["request"]), None)
                 sp = rec.get("scoped") if rec else None
+            if sp is None and rec is not None and rec.get("verdict") == "not_in_window":
+                # encrypted and refused for its timing (the device rebooted): the agent
+                # never decrypted it; the re-sent request is judged
+                self.R.mon["requests_refused_for_timing_after_a_reboot"] += 1
+                continue
             if sp is None:
                 self.viol("%s: scoped PDU of the v3 request could not be read by the agent" % where)
                 return
@@ -230,6 +248,9 @@ class Harness:
                 self.check_new_events(where)
                 if res[0] != "ok" and not self.failed:
                     self.viol("%s: request failed: %r" % (where, res[1]))
+            elif st[0] == "reboot":
+                self.agent.reboot()
+                self.R.mon["reboots_inside_histories"] += 1
             elif st[0] == "configure":
                 before = self.cur()["credentials"].split(":")[0]
                 self.client.configure(**self.real_kwargs(st[1]))
@@ -279,11 +300,13 @@ class Harness:
                             if first[0] != "ok" and not self.failed:
                                 self.viol("%s: first step of the walk failed: %r" % (where, first[1]))
                         if by_exc:
-                            raise Boom()
-                except Boom:
+                            # an ordinary exception, a BaseException, a cancellation
+                            raise EXITS[(len(where) + len(inner)) % 3]()
+                except EXITS as exc:
                     if not by_exc:
                         raise
                     self.R.mon["exception_exits_checked"] += 1
+                    self.R.mon["exits_by_" + type(exc).__name__] += 1
                 finally:
                     if len(self.model) > 1:
                         self.model.pop()
